@@ -369,6 +369,26 @@ int main(int argc, char** argv) {
                 if (f != BSON) roundtrip<json>((Fmt)f, arr, r, "json"); }
             H.count_("regress.length_boundaries");
         }
+        // MessagePack timestamp extension: epoch_second integers at the boundaries of the 32-, 64- and 96-bit forms
+        for (i64 sec : {(i64)0, (i64)1, (i64)4294967295LL, (i64)4294967296LL, (i64)17179869183LL, (i64)17179869184LL, (i64)34359738368LL, (i64)253402300799LL, (i64)-1, (i64)-2147483648LL, (i64)-62135596800LL}) {
+            json a(json_array_arg); a.push_back(json(sec, semantic_tag::epoch_second)); if (sec >= 0) a.push_back(json((uint64_t)sec, semantic_tag::epoch_second)); a.push_back(7);
+            std::vector<uint8_t> b; msgpack::encode_msgpack(a, b); json back = msgpack::decode_msgpack<json>(b); H.count_("regress.msgpack_timestamps");
+            // the decoder reports timestamp 32 as epoch_second and timestamp 64/96 as an epoch_nano decimal string: the instant must be the same
+            std::string want_ns = (bigint(sec) * bigint(1000000000)).to_string();
+            for (size_t i = 0; i + 1 < a.size(); ++i) {
+                std::string got_ns = back[i].tag() == semantic_tag::epoch_second && back[i].is_number() ? (bigint(back[i].as<i64>()) * bigint(1000000000)).to_string()
+                                   : back[i].tag() == semantic_tag::epoch_nano && back[i].is_string() ? back[i].as<std::string>() : std::string("?");
+                if (got_ns != want_ns) H.violation("binrt/msgpack/timestamp/instant-changed", J().num("seconds", sec).str("bytes", hex(b)).str("got", describe(back[i])).done());
+            }
+            if (back.size() != a.size() || back[back.size() - 1].as<int>() != 7) H.violation("binrt/msgpack/timestamp/structure-changed", J().num("seconds", sec).str("bytes", hex(b)).done());
+        }
+        // CBOR bigfloat (tag 5) text form: mantissa and exponent are hexadecimal, exponents of one, two and three digits, with letters
+        for (const char* bf : {"0x6AB3p-2", "0x6AB3p-10", "0x1p1A", "0x3p-1F", "0xFFp100", "-0x1p-A", "0x1p0", "0x7FFFFFFFFFFFFFFFp-3E8"}) {
+            json a(json_array_arg); a.push_back(json(bf, semantic_tag::bigfloat)); a.push_back(7);
+            std::vector<uint8_t> b; try { cbor::encode_cbor(a, b); json back = cbor::decode_cbor<json>(b); H.count_("regress.cbor_bigfloats");
+                if (!back[0].is_string() || back[0].tag() != semantic_tag::bigfloat || back[0].as<std::string>() != bf) H.violation("binrt/cbor/bigfloat/text-changed", J().str("bigfloat", bf).str("bytes", hex(b)).str("got", describe(back[0])).done());
+            } catch (const std::exception& e) { H.violation("binrt/cbor/bigfloat/refused-or-undecodable", J().str("bigfloat", bf).str("what", e.what()).done()); }
+        }
         // documents larger than the 16 KiB buffers of the stream sinks/sources: long text and byte strings, alone, repeated and mixed with small items
         for (size_t n : {16383u, 16384u, 16385u, 20000u, 40000u, 70000u}) {
             json one(json_object_arg); one.try_emplace("s", std::string(n, 'q'));
